@@ -76,7 +76,7 @@ CLAIMED["C03"] = dict(
          "(crossbeam-channel and rayon are substituted at the Cargo level by shims with the same semantics). Writer output must "
          "be byte-identical to bgzf::io::Writer for the same history; reader bytes/positions must equal the flat model after "
          "every operation incl. seeks; deadlock and livelock are detected exactly; injected sink failures, source errors and "
-         "corrupt blocks must surface from a later call. Seeded search over schedules (6 000 quick / 400 000 thorough), not proof.",
+         "corrupt blocks must surface from a later call. Seeded search over schedules (20 000 quick / 400 000 thorough), not proof.",
     note="Trusted: shim fidelity (bounded channels, disconnect semantics, pool as 'any idle worker picks any queued task'); hooks H1 add only scheduling points. Each run is replayable from its recorded decision list.",
     engine="thread-sim")
 
